@@ -94,6 +94,11 @@ func runTargetCase(c targetCase) (got, want uint32, p string) {
 	var prev bitcoin.Hash32
 	prev[0] = 0x42
 	groupBase := int64(baseTime) + 100000
+	if c.Span < -1000000 {
+		groupBase = 4100000000 // the first window lies in the far future, the last one back in the present
+	} else if c.Span > 2400000000 {
+		groupBase = 1000000
+	}
 	for i := 0; i < chainLen; i++ {
 		bits := bitsClasses[c.Others]
 		t := int64(baseTime) + int64(i)*600
@@ -158,7 +163,9 @@ func tiePattern(t [3]int8) string {
 
 func targetPart(thorough bool) *result {
 	var cases []targetCase
-	spans := []int64{10 * 600, 144 * 600, 400 * 600, 0, -100 * 600, 72 * 600, 288*600 + 1, 72*600 - 1}
+	// the last three are spans of more than 2^31 seconds (far-future / far-past endpoint medians)
+	spans := []int64{10 * 600, 144 * 600, 400 * 600, 0, -100 * 600, 72 * 600, 288*600 + 1, 72*600 - 1,
+		1<<31 + 5, -(1<<31 + 5), 2500000000}
 	deltas := []uint32{1}
 	if thorough {
 		deltas = []uint32{1, 7200}
